@@ -55,6 +55,17 @@ CHECKS = {
                 note="Trusted: pbt/pathmodel.py. Undecidable samples (within band = 3 x tolerance of the boundary, ambiguous bend fits, "
                      "ill-conditioned displaced-line joints) are not used. Known finding C07-K1 (round ends in OASIS).",
                 technique="property-based testing (Hypothesis) with an independent swept-region membership oracle and a write/read differential"),
+    "C08": dict(level="exploration", design="4 C08",
+                text="Generated RobustPath histories: (A) position/gradient/width/offset queries at drawn parameters (every integer "
+                     "with both from_below values) against my own analytic sections and interpolations, and the commands() "
+                     "spelling against the calls; (B) outlines of well-conditioned paths probed at decidable inside/outside "
+                     "samples of the densified centre curve C(u) = S(u) + o(u) N(u) with half-width w(u)/2, no-gap samples at "
+                     "corner joints, termination under the watchdog; (C) simple paths re-loaded from GDSII/OASIS PATH records: "
+                     "centre line within grid + 2 x tolerance of C(u), width = w(0).",
+                note="Trusted: pbt/rpmodel.py, pbt/pathmodel.py. Elliptical arc angles are parameter angles (robustpath.hpp). Samples "
+                     "inside the exclusion radius of a corner or centre-line kink (miter region) are not used; ill-conditioned "
+                     "centre lines (curvature radius < 2 x reach) are not judged for region.",
+                technique="property-based testing (Hypothesis) against an analytic section model, a swept-region membership oracle and a write/read differential"),
     "C09": dict(level="exploration", design="4 C09",
                 text="Generated hierarchies incl. degenerate contents (collinear, single point, empty) and explicit repetitions under "
                      "oblique rotations; Cell/Reference/Polygon/Label bounding boxes and convex hulls, uncached and with a shared "
